@@ -374,6 +374,8 @@ impl<'e> EventLoop<'e> {
             std::thread::Builder::new()
                 .name(thread_name.clone())
                 .spawn(move || {
+                    #[cfg(open_coroutine_verif)]
+                    crate::common::verif::pause("event_loop_thread_enter");
                     let consumer =
                         unsafe { BeanFactory::get_mut_bean::<Self>(bean_name_in_thread) }
                             .unwrap_or_else(|| panic!("bean {bean_name_in_thread} not exist !"));
